@@ -102,8 +102,9 @@ type In struct {
 		Name  string `json:"name"`
 		Canon string `json:"canon"`
 	} `json:"ehlo"`
-	Group bool `json:"group"`
-	Mf    struct {
+	Group  bool   `json:"group"`
+	Second string `json:"second"`
+	Mf     struct {
 		Local string `json:"local"`
 		Dom   string `json:"dom"`
 		Canon string `json:"canon"`
@@ -428,6 +429,8 @@ func header() textproto.Header {
 
 type out struct {
 	Action     string   `json:"action"`
+	Action2    string   `json:"action2"`
+	Stage2     string   `json:"stage2"`
 	Stage      string   `json:"stage"`
 	Code       int      `json:"code"`
 	Ench       string   `json:"ench"`
@@ -525,7 +528,7 @@ func runRow(t *testing.T, r Row) (o out) {
 	}
 	cur = env
 	o.Queries, o.Raw, o.SelfTest, o.Parsed = []Query{}, []string{}, []Query{}, []string{}
-	o.Stage = "none"
+	o.Stage, o.Action2, o.Stage2 = "none", "n/a", "none"
 	defer func() {
 		if e := recover(); e != nil {
 			o.Panic = fmt.Sprint(e)
@@ -609,11 +612,30 @@ func runRow(t *testing.T, r Row) (o out) {
 		classify(&o, err)
 		return o
 	}
-	// as Session.startDelivery
-	id := fmt.Sprintf("row%d", r.ID)
-	meta := &module.MsgMetadata{ID: id, Conn: &connState, SMTPOpts: smtp.MailOptions{UTF8: in.Mf.UTF8}, OriginalFrom: from}
+	// as Session.startDelivery, for each message of the connection
+	sendMsg(t, r, pipe, &connState, from, 1, &o)
+	if in.Second != "none" {
+		from2 := from
+		if in.Second == "null" {
+			from2 = ""
+		}
+		var o2 out
+		o2.Stage = "none"
+		sendMsg(t, r, pipe, &connState, from2, 2, &o2)
+		o.Action2, o.Stage2 = o2.Action, o2.Stage
+	}
+	return o
+}
+
+// sendMsg sends one message over the announced connection and records the
+// outcome in o (action, stage, SMTP error).
+func sendMsg(t *testing.T, r Row, pipe *msgpipeline.MsgPipeline, connState *module.ConnState, from string, n int, o *out) {
+	ctx := context.Background()
+	id := fmt.Sprintf("row%d-%d", r.ID, n)
+	meta := &module.MsgMetadata{ID: id, Conn: connState, SMTPOpts: smtp.MailOptions{UTF8: r.In.Mf.UTF8}, OriginalFrom: from}
 	cleanFrom := from
 	if from != "" {
+		var err error
 		cleanFrom, err = address.CleanDomain(from)
 		if err != nil {
 			t.Fatalf("row %d: CleanDomain(%q): %v", r.ID, from, err)
@@ -622,23 +644,24 @@ func runRow(t *testing.T, r Row) (o out) {
 	d, err := pipe.Start(ctx, meta, cleanFrom)
 	if err != nil {
 		o.Stage = "mail"
-		classify(&o, err)
-		return o
+		classify(o, err)
+		return
 	}
-	refused := func(stage string, err error) out {
+	refused := func(stage string, err error) {
 		_ = d.Abort(ctx)
 		o.Stage = stage
-		classify(&o, err)
+		classify(o, err)
 		if s := theTgt.take(id); s != nil && s.committed {
 			o.Action = "refused-but-delivered"
 		}
-		return o
 	}
 	if err := d.AddRcpt(ctx, rcptAddr, smtp.RcptOptions{}); err != nil {
-		return refused("rcpt", err)
+		refused("rcpt", err)
+		return
 	}
 	if err := d.Body(ctx, header(), buffer.MemoryBuffer{Slice: []byte("hello\r\n")}); err != nil {
-		return refused("body", err)
+		refused("body", err)
+		return
 	}
 	if err := d.Commit(ctx); err != nil {
 		t.Fatalf("row %d: Commit: %v", r.ID, err)
@@ -646,7 +669,7 @@ func runRow(t *testing.T, r Row) (o out) {
 	s := theTgt.take(id)
 	if s == nil || !s.body || !s.committed {
 		o.Action = "lost"
-		return o
+		return
 	}
 	o.Delivered = true
 	o.Quarantine = s.quarantine
@@ -655,7 +678,6 @@ func runRow(t *testing.T, r Row) (o out) {
 	} else {
 		o.Action = "none"
 	}
-	return o
 }
 
 func TestReplay(t *testing.T) {
